@@ -150,15 +150,11 @@ class _cleanup_temp(Contract):
 @contract(_SQ + "_serialize_point")
 class _serialize_point(Contract):
     """the item decodes to the point (C05 for CSVStorage; identity for MemoryStorage)"""
-    params = dict(self=STG, point=MP, compact_key_prefixes=TBool)
+    params = dict(self=STG, point=Pt, compact_key_prefixes=TBool)
     defaults = dict(compact_key_prefixes=lambda ex: mk_bool(False))
     ret = Item
     assumed = True
 
     @staticmethod
-    def requires(c):
-        return [("time_is_set", o_is_some(c.point.t["_time"].t))]
-
-    @staticmethod
     def ensures(c):
-        return [("decodes_to_point", dec(c.result.t) == pt_of(c.point))]
+        return [("decodes_to_point", dec(c.result.t) == c.point.t)]
